@@ -1515,6 +1515,192 @@ fn run_cases(ctx: &mut Ctx, host: &Host, cases: Vec<Case>, tagc: &str, shrink: b
     Ok(())
 }
 
+// ------------------------------------------------------------------------------------------
+// TypeScript backend: `export const <name> = <JER value>;`. Judged for the value kinds whose
+// JER form is unambiguous (INTEGER, BOOLEAN, NULL, BIT STRING, OCTET STRING, OBJECT IDENTIFIER,
+// character strings without quotes or backslashes); value references are followed.
+
+fn kind_name(k: &K) -> &'static str {
+    match k {
+        K::Int { .. } => "INTEGER",
+        K::Bool => "BOOLEAN",
+        K::Null => "NULL",
+        K::Str(_) => "string",
+        K::Bits { .. } => "BIT STRING",
+        K::Octets => "OCTET STRING",
+        K::Oid => "OBJECT IDENTIFIER",
+        _ => "other",
+    }
+}
+
+fn ts_consts(ts: &str) -> std::collections::BTreeMap<String, String> {
+    let mut out = std::collections::BTreeMap::new();
+    let mut rest = ts;
+    while let Some(p) = rest.find("export const ") {
+        let after = &rest[p + "export const ".len()..];
+        let Some(eq) = after.find('=') else { break };
+        let name = after[..eq].split(':').next().unwrap_or("").trim().to_string();
+        // the initialiser ends at the first `;` outside quotes and braces
+        let body = &after[eq + 1..];
+        let (mut depth, mut in_str, mut end) = (0i32, false, body.len());
+        let bytes: Vec<char> = body.chars().collect();
+        let mut idx = 0usize;
+        let mut byte_pos = 0usize;
+        while idx < bytes.len() {
+            let ch = bytes[idx];
+            if in_str {
+                if ch == '"' {
+                    in_str = false;
+                }
+            } else if ch == '"' {
+                in_str = true;
+            } else if ch == '{' || ch == '[' {
+                depth += 1;
+            } else if ch == '}' || ch == ']' {
+                depth -= 1;
+            } else if ch == ';' && depth <= 0 {
+                end = byte_pos;
+                break;
+            }
+            byte_pos += ch.len_utf8();
+            idx += 1;
+        }
+        let mut expr = String::new();
+        let mut q = false;
+        for ch in body[..end].chars() {
+            if ch == '"' {
+                q = !q;
+            }
+            if q || !ch.is_whitespace() {
+                expr.push(ch);
+            }
+        }
+        let expr = expr.replace(",}", "}").replace(",]", "]");
+        out.insert(name, expr);
+        rest = &after[eq + 1 + end.min(body.len())..];
+    }
+    out
+}
+
+/// Some(abstract value) when the expression is one of the recognised JER forms for the kind
+fn ts_value(td: &TyDef, expr: &str) -> Option<AV> {
+    match &td.k {
+        K::Int { .. } => expr.parse::<i128>().ok().map(AV::Int),
+        K::Bool => match expr {
+            "true" => Some(AV::Bool(true)),
+            "false" => Some(AV::Bool(false)),
+            _ => None,
+        },
+        K::Null => (expr == "null").then_some(AV::Null),
+        K::Str(_) => expr.strip_prefix('"').and_then(|r| r.strip_suffix('"')).map(|t| AV::Str(t.to_string())),
+        K::Octets => {
+            let t = expr.strip_prefix('"')?.strip_suffix('"')?;
+            der::unhex(&t.to_lowercase()).map(AV::Octets)
+        }
+        K::Bits { .. } => {
+            let r = expr.strip_prefix("{value:\"")?;
+            let (hexs, r) = r.split_once("\",length:")?;
+            let n: usize = r.strip_suffix('}')?.parse().ok()?;
+            if hexs.len() % 2 != 0 {
+                // not a whole number of octets: not a JER bit string value
+                return Some(AV::Str(format!("<malformed: {} hex digits are not a whole number of octets>", hexs.len())));
+            }
+            let bytes = der::unhex(&hexs.to_lowercase())?;
+            let mut bits: Vec<bool> = bytes.iter().flat_map(|b| (0..8).rev().map(move |i| b >> i & 1 == 1)).collect();
+            if n > bits.len() {
+                return Some(AV::Str(format!("<malformed: length {n} exceeds the {} bits given>", bits.len())));
+            }
+            bits.truncate(n);
+            Some(AV::Bits(bits))
+        }
+        K::Oid => {
+            let t = expr.strip_prefix('"')?.strip_suffix('"')?;
+            t.split('.').map(|a| a.parse::<u64>().ok()).collect::<Option<Vec<u64>>>().map(AV::Oid)
+        }
+        _ => None,
+    }
+}
+
+fn ts_leg(ctx: &mut Ctx, cases: &[Case]) {
+    type Row = (String, String, Option<(String, String)>);
+    let rows: Vec<Vec<Row>> = cases
+        .par_iter()
+        .map(|c| {
+            let mut out: Vec<Row> = vec![];
+            let td = &c.types[c.subject];
+            if !matches!(td.k, K::Int { .. } | K::Bool | K::Null | K::Str(_) | K::Octets | K::Bits { .. } | K::Oid) {
+                return out;
+            }
+            if let AV::Str(t) = &c.v0.av {
+                if t.contains('"') || t.contains('\\') || t.contains('\n') {
+                    return out;
+                }
+            }
+            // BMPString / TeletexString: the listed findings concern the rasn constructor only; JER is plain text
+            let text = case_text(c, "Val-Ts");
+            let Outcome::Ok(o) = comp::compile_ts(&[text.clone()]) else { return out };
+            if !o.warnings.is_empty() {
+                return out;
+            }
+            let consts = ts_consts(&o.generated);
+            for i in 0..=c.chain {
+                let name = format!("v{i}");
+                // follow value references
+                let mut expr = consts.get(&name).cloned();
+                let mut hops = 0;
+                while let Some(e) = &expr {
+                    if hops < 8 && e.chars().all(|ch| ch.is_alphanumeric() || ch == '_') && consts.contains_key(e) && e.parse::<i128>().is_err() && !["true", "false", "null"].contains(&e.as_str()) {
+                        expr = consts.get(e).cloned();
+                        hops += 1;
+                    } else {
+                        break;
+                    }
+                }
+                let Some(expr) = expr else {
+                    out.push((text.clone(), format!("{name}:missing"), Some(("ts-missing".into(), format!("the TypeScript bindings declare no constant `{name}` for a value assignment of a warning-free compilation")))));
+                    continue;
+                };
+                match ts_value(td, &expr) {
+                    None => out.push((text.clone(), format!("{name}:unrecognised"), None)),
+                    Some(got) => {
+                        let want = canon(&c.types, c.subject, &c.v0.av);
+                        let got = canon(&c.types, c.subject, &got);
+                        if got == want {
+                            out.push((text.clone(), name, None));
+                        } else {
+                            out.push((text.clone(), name.clone(), Some((format!("ts-value:{}", kind_name(&td.k)), format!("TypeScript: `{name}` is `{}`, which denotes {} but the source says {}", expr.chars().take(120).collect::<String>(), show_av(&got), show_av(&want))))));
+                        }
+                    }
+                }
+            }
+            out
+        })
+        .collect();
+    let mut reported: std::collections::BTreeSet<String> = Default::default();
+    for (ci, rs) in rows.into_iter().enumerate() {
+        for (text, label, fail) in rs {
+            if label.ends_with(":unrecognised") {
+                ctx.class("ts:form-not-recognised");
+                continue;
+            }
+            ctx.case(&format!("ts|{text}|{label}"), nontrivial_lit(&cases[ci].v0.av));
+            ctx.class("backend:typescript");
+            if let Some((key, what)) = fail {
+                ctx.class(&format!("fails:{}", key.split(':').next().unwrap_or("")));
+                if reported.insert(key.clone()) && ctx.violations.len() < 8 {
+                    ctx.fail(Failure {
+                        finding: None,
+                        what: format!("{key}: {what}"),
+                        replay: json!({"kind": "c07", "backend": "typescript", "key": key, "case_json": serde_json::to_string(&cases[ci]).unwrap_or_default(), "sources": [{"name": "value.asn", "text": text}]}),
+                    });
+                } else {
+                    ctx.violations.push((String::new(), what));
+                }
+            }
+        }
+    }
+}
+
 pub fn run(tier: Tier, seed: u64, replay: Option<String>) -> i32 {
     // Ctx::new removes stale viol files; scratch contexts used while shrinking must not: see shrink_case
     let mut ctx = Ctx::new("C07", tier, seed);
@@ -1544,6 +1730,7 @@ pub fn run(tier: Tier, seed: u64, replay: Option<String>) -> i32 {
     if let Some(path) = replay {
         let v: Value = serde_json::from_str(&std::fs::read_to_string(&path).expect("replay")).expect("json");
         let case: Case = serde_json::from_str(v["case_json"].as_str().expect("case_json")).expect("case");
+        ts_leg(&mut ctx, std::slice::from_ref(&case));
         if let Err(e) = run_cases(&mut ctx, &host, vec![case], "replay", false) {
             eprintln!("{e}");
             return 2;
@@ -1559,6 +1746,7 @@ pub fn run(tier: Tier, seed: u64, replay: Option<String>) -> i32 {
         }
     }
     if !corpus.is_empty() {
+        ts_leg(&mut ctx, &corpus);
         if let Err(e) = run_cases(&mut ctx, &host, corpus, "corpus", false) {
             eprintln!("{e}");
             return 2;
@@ -1577,6 +1765,7 @@ pub fn run(tier: Tier, seed: u64, replay: Option<String>) -> i32 {
                 sampled += 1;
             }
         }
+        ts_leg(&mut ctx, &cases);
         if let Err(e) = run_cases(&mut ctx, &host, cases, &format!("b{done}"), true) {
             eprintln!("{e}");
             return 2;
